@@ -331,7 +331,9 @@ def run_shard(ctx):
         prog = rp2.program()
         lay = gen.Layout(rng, noise=0.2, breaks=0.2, comments=0.2)
         symbol_round_trip(ctx, gen.render_program(prog, lay))
-    for script in ['', '# nothing', '`x = 1`', '```\nself.Y[t] = 1\n```', 'Y = X', "Y = sum(C['2000']) / 4", 'Y = (X if Z > 0 else -X)']:
+    for script in ['', '# nothing', '`x = 1`', '```\nself.Y[t] = 1\n```', 'Y = X', "Y = sum(C['2000']) / 4", 'Y = (X if Z > 0 else -X)',
+                   # names and keywords that read like the markers of a missing table cell
+                   'Y = C + G if G > 0 else None', 'nan = X + 1', 'Y = nan + NaN * None_ + inf', 'NaN = nan[-1]\nnull = NA + NaT', 'Y = True if X else False']:
         symbol_round_trip(ctx, script)
 
 
